@@ -244,11 +244,30 @@ class Recorder:
                                  curve=np.array(curve, dtype=int), inner=float(innerclip),
                                  outer=float(innerclip if outerclip is None else outerclip),
                                  offsets=tuple(int(o) for o in offsets), max_summits=max_summits,
+                                 samp=sampling_map(sf, data, np.array(curve, dtype=int), offsets),
                                  params=params_tuple(params)))
             return params
 
         sf._fit_island = fit
         sf.estimate_lmfit_parinfo = est
+
+
+def sampling_map(sf, data, curve, offsets):
+    """the amplitude allowance `sampling = max(1.05, 2**(2/b**2))` of estimate_lmfit_parinfo at every pixel that can be
+    a summit's peak (local extrema; every finite pixel of a small island), from the psf helper exactly as the code asks
+    for it: get_psf_pix2pix(yo + offsets[0], xo + offsets[1]).  NaN elsewhere (the model must not look there)."""
+    data = np.asarray(data, dtype=float)
+    h, w = data.shape
+    out = np.full((h, w), np.nan)
+    fin = np.isfinite(data)
+    small = min(h, w) <= 2 or int(fin.sum()) <= 6
+    for x in range(h):
+        for y in range(w):
+            if fin[x, y] and (small or curve[x, y] != 0):
+                a, b, pa = sf.global_data.psfhelper.get_psf_pix2pix(y + offsets[0], x + offsets[1])
+                if np.all(np.isfinite((a, b, pa))):
+                    out[x, y] = max(1.05, 2.0 ** (2.0 / b ** 2))
+    return out
 
 
 def params_tuple(params):
@@ -569,7 +588,7 @@ def est_lines(e, img, lines, todo, case):
 def est_only(e, lines, todo, case):
     h, w = e['data'].shape
     ms = -1 if e['max_summits'] is None else int(e['max_summits'])
-    lines.append(f"est {h} {w} {common.f2h(e['inner'])} {common.f2h(e['outer'])} {ms} {fl(e['data'])} {fl(e['rms'])} "
+    lines.append(f"est {h} {w} {common.f2h(e['inner'])} {common.f2h(e['outer'])} {ms} {fl(e['data'])} {fl(e['rms'])} {fl(e['samp'])} "
                  + " ".join(str(int(v)) for v in e['curve'].ravel()))
     todo.append(('est', case, e))
 
@@ -815,6 +834,7 @@ def small_island_cases(ctx, lines, todo, count):
                 warnings.simplefilter('ignore')
                 p = sf.estimate_lmfit_parinfo(d.copy(), rms.copy(), c.copy(), None, 5, 4, offsets=(8, 8), max_summits=ms)
             e = dict(isle=None, data=d, rms=rms, curve=c, inner=5.0, outer=4.0, offsets=(8, 8), max_summits=ms,
+                     samp=sampling_map(sf, d, c, (8, 8)),
                      params=params_tuple(p))
             res.append(e)
             est_only(e, lines, todo, dict(kind='small-island', data=[[None if v != v else v for v in r] for r in d.tolist()],
@@ -944,6 +964,7 @@ def replay_small(ctx, case, lines, todo):
             warnings.simplefilter('ignore')
             p = sf.estimate_lmfit_parinfo(sgn * data, rms.copy(), sgn * curve, None, 5, 4, offsets=(8, 8), max_summits=ms)
         e = dict(isle=None, data=sgn * data, rms=rms, curve=sgn * curve, inner=5.0, outer=4.0, offsets=(8, 8),
+                 samp=sampling_map(sf, sgn * data, sgn * curve, (8, 8)),
                  max_summits=ms, params=params_tuple(p))
         res.append(e)
         est_only(e, lines, todo, case)
